@@ -18,6 +18,8 @@ na = [{'property_id': p, 'reason': na_reasons.get(p, 'no check built yet: the Le
       for p in props if p not in claimed]
 base = json.load(open(os.path.join(D, '_base.json')))
 base['checks'] = checks
+for e in base.get('engines', []):
+    e['serves_properties'] = sorted(claimed)
 base['not_applicable'] = na
 json.dump(base, open(os.path.join(ROOT, 'MANIFEST.json'), 'w'), indent=1)
 print('claimed', sorted(claimed), 'not_applicable', [x['property_id'] for x in na])
